@@ -78,11 +78,9 @@ def run(ctx):
     # that needs less (e.g. a 17-byte sealed payload behind an 18-byte threshold). An emptiness test (threshold <= 1) is harmless.
     from .common import const_cmp_of_switch
     n_sm = 0
-    for fn in sorted(reach):
-        b = prog.bodies[fn]
-        if b.root != b.defp:
-            continue
-        state_switches = []
+
+    def _state_switches(b):
+        out = []
         for blk in b.rpo():
             t = b.term(blk)
             if not t or t["k"] != "switch" or len(t["arms"]) + 1 < 2:
@@ -94,12 +92,61 @@ def run(ctx):
                 if d[0] == "assign" and d[3]["rv"]["k"] == "discr":
                     pl = d[3]["rv"]["p"]
                     if pl[0] == 1 and any(e[0] == "field" for e in pl[1]) and any(e[0] == "deref" for e in pl[1]) and not any(e[0] == "downcast" for e in pl[1]):
-                        state_switches.append(blk)
-        if not state_switches:
-            continue
+                        out.append(blk)
+        return out
+
+    def _quiet(b):
         rv = returns_variant(b)
         some = set(ok_some_blocks(b))
-        quiet = [x for x, v in rv.items() if v == "Ok" and x not in some]
+        return [x for x, v in rv.items() if v == "Ok" and x not in some]
+
+    # the state machines among the functions reached from stream decoders
+    machines = {}
+    for fn in sorted(reach):
+        b = prog.bodies[fn]
+        if b.root != b.defp:
+            continue
+        sw = _state_switches(b)
+        if sw and _quiet(b):
+            machines[fn] = sw
+
+    def _delegations(b):
+        """calls that hand the source on to another state machine through an object this function found in `self` (a field, or the payload
+        of the Option / enum it switched on) and did not create itself: what that object is waiting for is not known here"""
+        out = []
+        written = set()
+        for blk in b.rpo():
+            for st in b.stmts(blk):
+                if st["k"] == "assign" and st["p"][0] == 1:
+                    written |= {e[2] for e in st["p"][1] if e[0] == "field" and len(e) > 2}
+        for (blk, c, t) in b.calls():
+            tb = prog.body(c.target)
+            if tb is None or tb.root not in machines or tb.root == b.root or not t["args"]:
+                continue
+            rp = op_place(t["args"][0])
+            if rp is None:
+                continue
+            locs, _, _ = b.slice_back([rp[0]], stop_call=lambda cc: True)
+            flds = set()
+            for l in locs | {rp[0]}:
+                for d in b.defs().get(l, []):
+                    if d[0] == "assign" and d[3]["rv"]["k"] in ("ref", "use"):
+                        pp = d[3]["rv"].get("p") or op_place(d[3]["rv"].get("op"))
+                        if pp and pp[0] == 1:
+                            flds |= {e[2] for e in pp[1] if e[0] == "field" and len(e) > 2 and e[2] not in ("0", "1")}
+            if flds and not (flds & written):
+                out.append(blk)
+        return out
+
+    for fn in sorted(reach):
+        b = prog.bodies[fn]
+        if b.root != b.defp:
+            continue
+        state_switches = machines.get(fn, [])
+        deleg = _delegations(b)
+        if not state_switches and not deleg:
+            continue
+        quiet = _quiet(b)
         if not quiet:
             continue
         n_sm += 1
@@ -122,22 +169,32 @@ def run(ctx):
                 sides.append(("len", None) if any(cc.method in ("remaining", "len") for (_, cc, _) in cs) else ("expr", None))
             if ("len", None) not in sides:
                 continue
+            thr = [k for (kind, k) in sides if kind == "const"]
+            small = bool(thr) and thr[0] is not None and thr[0] <= 1
             # which edge leads to a quiet (need-more) return without passing a state arm?
             for tgt in (ft, tt):
                 leads = any(q in b.reach_from(tgt, avoid=frozenset(arm_targets)) for q in quiet)
                 other = tt if tgt == ft else ft
                 direct = leads and not any(q in b.reach_from(other, avoid=frozenset(arm_targets)) for q in quiet)
-                if not direct:
-                    continue
                 in_state = any(b.dominates(tg, blk) for tg in arm_targets)
-                if in_state:
+                if direct and not in_state:
+                    ctx.ob("R4h", fn, "need-more-is-decided-per-state", loc(t["sp"]), small,
+                           "only an emptiness test precedes the state dispatch" if small else
+                           "a length test that answers need-more is made before the decoder looks at its state: it demands the same number of bytes in every state, so a "
+                           "unit that is complete in a state needing fewer bytes (a short sealed payload behind the length-block threshold) is withheld until more arrives (stall)")
                     continue
-                thr = [k for (kind, k) in sides if kind == "const"]
-                small = bool(thr) and thr[0] is not None and thr[0] <= 1
-                ctx.ob("R4h", fn, "need-more-is-decided-per-state", loc(t["sp"]), small,
-                       "only an emptiness test precedes the state dispatch" if small else
-                       "a length test that answers need-more is made before the decoder looks at its state: it demands the same number of bytes in every state, so a "
-                       "unit that is complete in a state needing fewer bytes (a short sealed payload behind the length-block threshold) is withheld until more arrives (stall)")
+                # the same mistake one level up: the test sits in front of a delegation to an inner state machine
+                later = [d for d in deleg if b.can_reach(other, d) or other == d]
+                if not later:
+                    continue
+                skips = any(q in b.reach_from(tgt, avoid=frozenset(deleg)) for q in quiet) and not any(q in b.reach_from(other, avoid=frozenset(deleg)) for q in quiet)
+                if skips and not any(b.dominates(d, blk) for d in deleg):
+                    inner = sorted({last_seg(prog.body(Callee(b.term(d)["f"]).target).root) for d in later})
+                    ctx.ob("R4h", fn, "need-more-is-decided-by-the-inner-state-machine", loc(t["sp"]), small,
+                           "only an emptiness test precedes the delegation" if small else
+                           f"a length test answers need-more in front of the call into the inner state machine ({', '.join(inner)}), whose state this function does not "
+                           "look at: it demands the same number of bytes whatever that decoder is waiting for, so a unit that is complete in a state needing fewer bytes "
+                           "(the 17-byte sealed payload of a 1-byte chunk behind an 18-byte length-block threshold) is withheld until more arrives (stall)")
     ctx.floor("R4h", "state-machine decoders with need-more returns", 2, n_sm)
 
     # ---------------- R4f ----------------------------------------------------------------------
